@@ -48,7 +48,7 @@ def execStmt : Nat → Stmt → Sys W → Option (Sys W)
       | _ => none
     | .row data line =>
       match evalRow data σ.ctx with
-      | .ok (es, c') => some (σ.emit D ⟨es, line, true⟩ c')
+      | .ok (es, c') => some (σ.emit D { entries := es, line := line, upd := true } c')
       | _ => none
     | .resetRandom => some { σ with ctx := σ.ctx.resetRandom }
     | .loop var max body =>
